@@ -3,6 +3,7 @@ import re
 from engines import bool_polarity, kind_elements
 from engines import check_complete_iteration
 from prov import Prov, params_of, field_names
+from props.shared import subtractions
 
 CLAIM = ("(ROLE) every `added_X` accessor iterates the NEW ontology (rhs) and looks each item up in the OLD one (lhs), keeping it iff the lookup is none; "
          "`removed_X` the converse; `changed_X` iterates lhs, looks up rhs and builds the delta from (lhs item, rhs item); each accessor stays within its "
@@ -95,10 +96,23 @@ def run(ck, prog, ctx):
             x = hd.blocks[bi].term
             if x.k != "switch":
                 continue
-            for a in pv.of_operand(hd, x.discr):
+            dat = pv.of_operand(hd, x.discr)
+            for a in dat:
                 if a[0] == "call" and a[3] == hd.id and a[1].startswith("term::hpoterm::HpoTerm::") and a[1].rsplit("::", 1)[-1] in ACC:
                     t = hd.blocks[a[4]].term
                     for p in params_of(pvn.of_operand(hd, t.args[0]), hd.id):
+                        pairs.add((ACC[a[1].rsplit("::", 1)[-1]], p))
+                elif a[0] == "call" and a[3] != hd.id and a[3] in prog.bodies and prog.bodies[a[3]].file == hd.file and a[1].startswith("term::hpoterm::HpoTerm::") and a[1].rsplit("::", 1)[-1] in ACC:
+                    # the accessor is called inside a private helper (`Self::parent_ids(&lhs)`): the sides are those the
+                    # discriminant as a whole derives from
+                    sides_h = set(params_of(dat, hd.id))
+                    if not sides_h:
+                        # sides lost through the helper's frame: take the sides the helper is called with in this function
+                        for hbi, ht in hd.calls():
+                            if ht.callee.res == a[3] or (ht.callee.res and a[3].startswith(ht.callee.res)):
+                                for ha in ht.args:
+                                    sides_h |= params_of(pvn.of_operand(hd, ha), hd.id)
+                    for p in sides_h:
                         pairs.add((ACC[a[1].rsplit("::", 1)[-1]], p))
         need = {(x, p) for x in ("name", "parents", "obsolete", "replacement") for p in (1, 2)}
         miss = sorted(need - pairs)
@@ -130,23 +144,12 @@ def run(ck, prog, ctx):
         def acc_of(atoms):
             return {a[1].rsplit("::", 1)[-1] for a in atoms if a[0] == "call" and a[1].startswith("term::hpoterm::HpoTerm::")} - {"id"}
 
-        # the two accepted forms of a set subtraction A \\ B:  A.difference(&B)   and   A.iter().filter(|x| !B.contains(x))
+        # accepted forms of a set subtraction A \\ B: see props/shared.py subtractions()
         subs = {}
-        for bi, t in hd.calls():
-            if t.callee.method == "difference":
-                A, B = pv.of_operand(hd, t.args[0]), pv.of_operand(hd, t.args[1])
-                subs[bi] = (params_of(A, hd.id), params_of(B, hd.id), acc_of(A), acc_of(B), -1)
-            elif t.callee.trait == "std::iter::Iterator" and t.callee.method == "filter":
-                A = pv.of_operand(hd, t.args[0])
-                cb = prog.bodies.get(pv.closure_of_operand(hd, t.args[1]))
-                if cb is None:
-                    continue
-                cont = [(cbi, ct) for cbi, ct in cb.calls() if ct.callee.method == "contains"]
-                if len(cont) != 1:
-                    continue
-                B = pv.of_operand(cb, cont[0][1].args[0])
-                pol, _ = bool_polarity(cb, pvn, lambda c: c.method == "contains")
-                subs[bi] = (params_of(A, hd.id), params_of(B, hd.id), acc_of(A), acc_of(B), pol)
+        for k_, v_ in subtractions(prog, pv, pvn, hd).items():
+            pa_, pb_ = params_of(v_["A"], hd.id), params_of(v_["B"], hd.id)
+            if pa_ and pb_:
+                subs[k_] = (pa_, pb_, acc_of(v_["A"]), acc_of(v_["B"]), v_["pol"])
         if not subs or not agg:
             ck.undecided("ROLE", "HpoTermDelta/parents", "set subtraction (difference / filter-not-contains) or struct construction not recognised", where=hd.where())
         else:
@@ -173,26 +176,21 @@ def run(ck, prog, ctx):
             ck.undecided("ROLE", "AnnotationDelta/lists", "struct construction not recognised", where=ad.where())
         else:
             st = agg[0]
-            flt = {}
-            for bi, t in ad.calls():
-                if t.callee.trait == "std::iter::Iterator" and t.callee.method == "filter":
-                    recv = params_of(pv.of_operand(ad, t.args[0]), ad.id)
-                    cid = pv.closure_of_operand(ad, t.args[1])
-                    cb = prog.bodies.get(cid)
-                    inner, pol = set(), None
-                    if cb is not None:
-                        for cbi, ct in cb.calls():
-                            if ct.callee.res == "term::group::HpoGroup::contains":
-                                inner = params_of(pv.of_operand(cb, ct.args[0]), ad.id)
-                        pol, _ = bool_polarity(cb, pvn, lambda c: c.res == "term::group::HpoGroup::contains")
-                    flt[bi] = (recv, inner, pol)
-            for fld, want in (("added_terms", ({2}, {1}, -1)), ("removed_terms", ({1}, {2}, -1))):
+            subsA = subtractions(prog, pv, pvn, ad)
+            nmA = {frozenset({1}): "lhs", frozenset({2}): "rhs"}
+            for fld, want in (("added_terms", ({2}, {1})), ("removed_terms", ({1}, {2}))):
                 op = st.rv["ops"][st.rv["fields"].index(fld)]
                 at = pvn.of_operand(ad, op)
-                used = [flt[a[4]] for a in at if a[0] == "call" and a[1].endswith("::filter") and a[4] in flt]
-                ok = used and all(u == want for u in used)
-                ck.ob("ROLE", "AnnotationDelta/" + fld, bool(ok), "%s = items of %s kept iff %s contained in %s" % (fld, [("lhs" if u[0] == {1} else "rhs" if u[0] == {2} else sorted(u[0])) for u in used], ["not" if u[2] == -1 else "(positively)" for u in used], [("lhs" if u[1] == {1} else "rhs" if u[1] == {2} else sorted(u[1])) for u in used]), where=ad.where(st.line))
+                used = [subsA[a[4]] for a in at if a[0] == "call" and a[3] == ad.id and a[4] in subsA]
+                used = [(params_of(u["A"], ad.id), params_of(u["B"], ad.id), u["pol"]) for u in used]
+                used = [u for u in used if u[0] and u[1]]
+                if not used:
+                    ck.undecided("ROLE", "AnnotationDelta/" + fld, "%s is not built by a recognised set subtraction (difference / filter-not-contains / loop / private helper)" % fld, where=ad.where(st.line))
+                    continue
+                ok = all((u[0], u[1]) == want and u[2] == -1 for u in used)
+                ck.ob("ROLE", "AnnotationDelta/" + fld, bool(ok), "%s = %s" % (fld, " / ".join("items of %s kept iff %s contained in %s" % (nmA.get(frozenset(u[0]), sorted(u[0])), "not" if u[2] == -1 else "(positively)", nmA.get(frozenset(u[1]), sorted(u[1]))) for u in used)), where=ad.where(st.line))
         # decision coverage
+        subsA_all = subtractions(prog, pv, pvn, ad)
         got = set()
         for bi in sorted(ad.reach):
             x = ad.blocks[bi].term
@@ -204,13 +202,10 @@ def run(ck, prog, ctx):
                     fs = [e[1] for e in a[3] if e[0] == "f"]
                     if fs:
                         got.add("names.%s" % fs[0])
-            if any(a[0] == "call" and a[1].endswith("::filter") for a in at):
-                ps = params_of(Prov(prog, bind_closures=False).of_operand(ad, x.discr), ad.id)
-                # which list: by the receiver of the filter
-                for a in at:
-                    if a[0] == "call" and a[1].endswith("::filter") and a[3] == ad.id:
-                        r = params_of(pv.of_operand(ad, ad.blocks[a[4]].term.args[0]), ad.id)
-                        got.add("added" if r == {2} else "removed" if r == {1} else "?")
+            for a in pvn.of_operand(ad, x.discr):
+                if a[0] == "call" and a[3] == ad.id and a[4] in subsA_all:
+                    r = params_of(subsA_all[a[4]]["A"], ad.id)
+                    got.add("added" if r == {2} else "removed" if r == {1} else "?")
         need = {"added", "removed", "names.0", "names.1"}
         ck.ob("COVER", "AnnotationDelta/decision", need <= got, "the changed-decision of AnnotationDelta::delta depends on %s%s" % (sorted(got & need), "" if need <= got else "; missing %s" % sorted(need - got)), where=ad.where())
     for nm in ("gene", "disease"):
